@@ -422,6 +422,38 @@ def run(ctx):
         stores = [(n_, d_) for n_, d_, _s, _b in fa2 if n_[-1] == "vertex_count"]
         okc = bool(stores) and all("vertices" in d_.names and any(c_.endswith("::len") for c_ in d_.calls) for _n, d_ in stores)
         ctx.ob("EDIT", f"{efn.split('::')[-1]}|vertex-count", (not grows) or okc, f"{efn} appends to part.vertices at {len(grows)} site(s) and stores mesh.vertex_count {len(stores)} time(s) from {[sorted(d_.names & {'vertices', 'vertex_count'}) for _n, d_ in stores]}; the count must become part.vertices.len()", ab2.file, ab2.line)
+    # ENCODE lanes: component k of every typed encoder's output array is computed from element k of its input
+    n_lane = 0
+    for en_, eb2 in sorted(prog.raw_bodies.items()):
+        if not en_.startswith("model_file_operations::") or "::write_" not in en_ or "{closure" in en_:
+            continue
+        eix2 = index_of(eb2)
+        for _bi, _si, st_ in eb2.stmts():
+            rv_ = st_.get("rv") or {}
+            if st_.get("k") != "assign" or rv_.get("k") != "agg" or rv_.get("ak") != "array" or not (2 <= len(rv_.get("ops", [])) <= 4):
+                continue
+            lanes_ = []
+            for o_ in rv_["ops"]:
+                d_ = derive(eix2, o_)
+                idxs = set()
+                for l_ in d_.locals:
+                    for dd_ in eix2.defs.get(l_, []):
+                        if dd_[0] != "assign":
+                            continue
+                        r2 = dd_[3]["rv"]
+                        pl2 = (r2.get("a") or {}).get("c") or (r2.get("a") or {}).get("m") or r2.get("p") or {}
+                        for pr_ in (pl2.get("p", []) if isinstance(pl2, dict) else []):
+                            if isinstance(pr_, dict) and "i" in pr_:
+                                c_ = eix2.resolve({"c": {"l": pr_["i"], "p": []}})
+                                idxs.add(c_[1] if c_[0] == "const" else "?")
+                            elif isinstance(pr_, dict) and "ci" in pr_:
+                                idxs.add(pr_["ci"])
+                lanes_.append(sorted(idxs, key=str))
+            if all(len(l_) == 1 for l_ in lanes_):
+                n_lane += 1
+                ctx.ob("ENCODE", f"{en_.split('::')[-1]}|lanes", [l_[0] for l_ in lanes_] == list(range(len(lanes_))), f"{en_.split('::')[-1]}: output component k is computed from input element {[l_[0] for l_ in lanes_]}; must be {list(range(len(lanes_)))}", eb2.file, eb2.line, sample=(n_lane == 1))
+    # (no floor: an encoder written with `vec.map(..)` has no such array and nothing to mis-index)
+
     uhb = prog.body("model::MDL::update_headers")
     if not uhb:
         ctx.fail_closed("EDIT", "model::MDL::update_headers not found")
